@@ -1040,6 +1040,10 @@ func genCurve(field, scal, root *pkgSrc, out string) {
 		{root, "root", "Element.Equal", "equal_ev", [][]string{{"e", "element"}}, ""},
 		{root, "root", "Element.Set", "set", [][]string{{"e"}, {"element"}}, ""},
 		{root, "root", "Element.Copy", "copy", nil, ""},
+		// the unexported helpers `multiply` calls directly
+		{root, "root", "Element.set", "setRaw", [][]string{{"e"}, {"element"}}, ""},
+		{root, "root", "Element.copy", "copyRaw", nil, ""},
+		{root, "root", "newElement", "newElement", nil, ""},
 	}, "GenElementAPI", "import Secp.FieldOps", out+"/ElementAPI.lean")
 	genLadder(root, out+"/Ladder.lean")
 	genDecoders(root, out+"/Decode.lean")
